@@ -47,9 +47,38 @@ def run_property(pid: str, world: World) -> Checker:
     ctx = Ctx(world)
     try:
         mod.run(ctx, ck)
+        _common_rules(pid, ctx, ck)
     except Incomplete as exc:
         ck.incomplete('ENGINE', exc.site, exc.why)
     return ck
+
+
+_ANCHORS: dict[str, set[str]] = {}
+
+
+def _anchor_files(pid: str) -> set[str]:
+    if not _ANCHORS:
+        import json
+
+        path = os.path.join(report.VERIF, 'properties.jsonl')
+        with open(path, encoding='utf-8') as f:
+            for line in f:
+                if line.strip():
+                    p = json.loads(line)
+                    _ANCHORS[p['id']] = set(p['anchors']['files'])
+    return _ANCHORS.get(pid, set())
+
+
+def _common_rules(pid: str, ctx: 'Ctx', ck: Checker) -> None:
+    """Rules applied to every property over the files it is anchored in."""
+    from .argsel import swaps
+
+    files = _anchor_files(pid)
+    found, examined = swaps(ctx.world, ctx.table, files)
+    for node, why in found:
+        ck.bad('ARGSEL', node, why, instance='swapped arguments')
+    if not found:
+        ck.ok('ARGSEL', f'{len(files)} anchor files', f'{examined} call sites to in-package callees with >= 2 positional arguments: no argument is passed in another parameter\'s position', instance='argument selection', nontrivial=examined > 0)
 
 
 def _run_controls(pid: str, world: World, mod) -> tuple[int, list[str]]:
